@@ -335,6 +335,10 @@ type concHarness struct {
 	perThread int // events per thread (1 or 2)
 	results   []string
 	mu        sync.Mutex
+	// cold: the threads share caches made for THIS execution (every first lookup of an id is a miss that queries the
+	// account database while other threads arrive), instead of the process-wide caches that are warm after the first run
+	cold          bool
+	users, groups *aucoalesce.EntityCache
 }
 
 // concLine: a single-record event with ONE id (uid), so that Go's random map
@@ -364,11 +368,15 @@ func raceBody(rep, g int) {
 	}
 }
 
-func concBody(i, n int) string {
+func concBody(i, n int) string { return concBodyWith(i, n, nil, nil) }
+
+func concBodyWith(i, n int, users, groups *aucoalesce.EntityCache) string {
 	var out []string
 	for k := 0; k < n; k++ {
 		e, err := aucoalesce.CoalesceMessages(parseGroup([]string{concLine(i + k)}))
-		if e != nil {
+		if e != nil && users != nil {
+			aucoalesce.ResolveIDsFromCaches(e, users, groups)
+		} else if e != nil {
 			aucoalesce.ResolveIDs(e) // global caches
 		}
 		out = append(out, evSnap(e, err))
@@ -379,10 +387,13 @@ func concBody(i, n int) string {
 func (h *concHarness) Body(x *sched.Exec) {
 	x.Prime = true
 	h.results = make([]string, h.nThreads)
+	if h.cold {
+		h.users, h.groups = aucoalesce.NewUserCache(time.Hour), aucoalesce.NewGroupCache(time.Hour)
+	}
 	for i := 0; i < h.nThreads; i++ {
 		i := i
 		x.Go(fmt.Sprintf("t%d", i), func() {
-			r := concBody(i, h.perThread)
+			r := concBodyWith(i, h.perThread, h.users, h.groups)
 			h.mu.Lock()
 			h.results[i] = r
 			h.mu.Unlock()
@@ -666,7 +677,7 @@ func checkC15(tier, raceBin string) int {
 	// the per-call clauses (inputs intact, coalescing again / from a fresh parse gives an equal event) over
 	// every group the C09 enumerations produce (all st_mode values, all record types single / repeated /
 	// without SYSCALL, every native syscall, every arrangement of auxiliary records, non-ASCII and relative names)
-	enumx.Run(run, "C15", []string{"c15:c09-modes", "c15:c09-groups", "c15:c09-singles", "c15:c09-repeats", "c15:c09-names", "c15:c09-syscalls", "c15:c09-missing", "c15:c09-times"}, tier, 16, true)
+	enumx.Run(run, "C15", []string{"c15:c09-modes", "c15:c09-groups", "c15:c09-singles", "c15:c09-repeats", "c15:c09-names", "c15:c09-syscalls", "c15:c09-missing", "c15:c09-times", "c15:c09-outcomes"}, tier, 16, true)
 	hs := c15Histories(maxLen)
 	var jobs []interface{}
 	n := 64
@@ -705,15 +716,15 @@ func checkC15(tier, raceBin string) int {
 	run.Set("histories", len(hs))
 	// concurrent part
 	vtime.Install()
-	for i := 0; i < 4; i++ {
+	for i := 0; i < 5; i++ {
 		seqExpected[[2]int{i, 1}] = concBody(i, 1)
 		seqExpected[[2]int{i, 2}] = concBody(i, 2)
 	}
 	var schedules int64
-	for _, shape := range [][2]int{{2, 1}, {3, 1}, {2, 2}, {3, 2}} {
-		nt, per := shape[0], shape[1]
+	for _, shape := range [][3]int{{2, 1, 0}, {3, 1, 0}, {2, 2, 0}, {3, 2, 0}, {2, 1, 1}, {3, 1, 1}, {2, 2, 1}, {4, 1, 1}} {
+		nt, per, cold := shape[0], shape[1], shape[2] == 1
 		// whole schedule tree when it closes within the cap, else every schedule within the preemption bound
-		mk := func() explore.Harness { return &concHarness{nThreads: nt, perThread: per} }
+		mk := func() explore.Harness { return &concHarness{nThreads: nt, perThread: per, cold: cold} }
 		cap := int64(5000)
 		if tier == "thorough" {
 			cap = 200000
@@ -742,7 +753,11 @@ func checkC15(tier, raceBin string) int {
 			}
 			run.Report(ev.Violation{Sig: "C15 " + f.Sig, What: f.What, Replay: map[string]interface{}{"threads": nt, "events_per_thread": per, "schedule": f.Schedule}})
 		}
-		run.Set(fmt.Sprintf("concurrent_%d_threads_%d_events_each", nt, per), map[string]interface{}{"schedules": r.Executions, "max_choice_points": r.MaxChoices, "preemption_bound": bound, "whole_tree": r.Exhausted})
+		name := fmt.Sprintf("concurrent_%d_threads_%d_events_each", nt, per)
+		if cold {
+			name += "_cold_caches"
+		}
+		run.Set(name, map[string]interface{}{"schedules": r.Executions, "max_choice_points": r.MaxChoices, "preemption_bound": bound, "whole_tree": r.Exhausted})
 	}
 	run.Set("concurrent_schedules", schedules)
 	// race pass
